@@ -8,6 +8,7 @@ import (
 	"sort"
 	"strings"
 	"sync"
+	"verifsa/internal/prover"
 
 	"golang.org/x/tools/go/ssa"
 
@@ -1644,6 +1645,53 @@ func helperRules(c *core.Ctx, codecs map[string]method05) {
 					emitted = append(emitted, call.Call.Args[1])
 				} else if strings.HasSuffix(n, ".Write") || strings.HasSuffix(n, ".WriteString") {
 					problems = append(problems, "octets written by "+n+" are not analysed")
+				}
+			}
+		}
+		if len(emitted) == 0 {
+			// the other spelling: a slice of 2*len(units) octets filled by index, octets[2*i] and octets[2*i+1]
+			pv := prover.New(fn)
+			var unitIdx ssa.Value
+			for _, b := range fn.Blocks {
+				for _, ins := range b.Instrs {
+					if ia, ok := ins.(*ssa.IndexAddr); ok && ia.X == ssa.Value(units) {
+						unitIdx = ia.Index
+					}
+				}
+			}
+			byK := map[int64]ssa.Value{}
+			var target *ssa.MakeSlice
+			nStores := 0
+			if unitIdx != nil {
+				for _, b := range fn.Blocks {
+					for _, ins := range b.Instrs {
+						st, ok := ins.(*ssa.Store)
+						if !ok {
+							continue
+						}
+						ia, ok := st.Addr.(*ssa.IndexAddr)
+						if !ok {
+							continue
+						}
+						ms, ok := ia.X.(*ssa.MakeSlice)
+						if !ok {
+							continue
+						}
+						nStores++
+						d := pv.LinOf(ia.Index).Add(pv.LinOf(unitIdx).Scale(2), -1)
+						if d.IsConst() && (d.C == 0 || d.C == 1) && (target == nil || target == ms) {
+							target = ms
+							byK[d.C] = st.Val
+						}
+					}
+				}
+			}
+			if target != nil && len(byK) == 2 && nStores == 2 {
+				sz := pv.LinOf(target.Len).Add(pv.LenOf(units).Scale(2), -1)
+				if sz.IsConst() && sz.C == 0 {
+					emitted = []ssa.Value{byK[0], byK[1]}
+				} else {
+					problems = append(problems, "the octet slice is not 2*len(units) long")
 				}
 			}
 		}
